@@ -106,10 +106,12 @@ class Run(tree_model.Run):
                 run.made += 1
                 run.hs[k] = self
                 self.loaded = []
+                self.tries = 0
                 rel = pt.relpath(pt.abspath(filename), run.root)
                 run.obs.append(f'made h{k} fac={fac} path=:{rel} args={enc_args(args, kwargs)}')
 
             def load(self):
+                self.tries += 1
                 v = object()
                 self.loaded.append(v)
                 return v
@@ -218,7 +220,8 @@ class Run(tree_model.Run):
                     self.names[id(m)] = t[1]
                     self.keep.append(m)
                 elif t[0] == 'newhandle':
-                    self.hs[int(t[1][1:])] = tree_model.make_handle(t[2])
+                    self.hs[int(t[1][1:])] = tree_model.make_handle(t[2], tree_model.parse_fails(t[3:]),
+                                                                     self.loader_excs)
                 elif t[0] == 'op':
                     self.safe_op(t[1:])
                 else:
